@@ -35,7 +35,7 @@ func runC16(c *Ctx, r *Report) {
 	for _, a := range vals {
 		lists = append(lists, []string{a})
 	}
-	for _, pair := range [][]string{{"CONNECT", "BIND"}, {"ASSOCIATE", ""}, {"BIND", "FOO"}, {"", ""}} {
+	for _, pair := range [][]string{{"CONNECT", "BIND"}, {"ASSOCIATE", ""}, {"BIND", "FOO"}, {"", ""}, {"CONNECT", "CONNECT"}, {"BIND", "BIND"}, {"CONNECT", "BIND", "CONNECT"}, {"ASSOCIATE", "CONNECT", "ASSOCIATE"}} {
 		lists = append(lists, pair)
 	}
 	str := func(s string) SV {
